@@ -4,6 +4,7 @@ import (
 	"encoding/json"
 	"fmt"
 	"math/rand"
+	"strings"
 	"sync"
 	"sync/atomic"
 
@@ -236,6 +237,7 @@ func c0910(args []string) error {
 			others = append(others, o)
 		}
 	}
+	selfLaw := false
 	emitLaw := func(ta, tb Tree, a, b geojson.Object) {
 		e := obj{"op": "law", "A": ta.JSON(), "B": tb.JSON()}
 		_, out := guarded(func() bool {
@@ -246,7 +248,7 @@ func c0910(args []string) error {
 			e["rectAcoversB"] = ra.ContainsRect(rb)
 			e["rectsMeet"] = ra.IntersectsRect(rb)
 			e["AcA"], e["AiA"] = true, true
-			if _, isCircle := a.(*geojson.Circle); isCircle { // self containment of the other objects is judged against L1 in the relation rows
+			if _, isCircle := a.(*geojson.Circle); isCircle || selfLaw { // self containment of the other objects is judged against L1 in the relation rows
 				e["AcA"], e["AiA"] = a.Contains(a), a.Intersects(a)
 			}
 			return true
@@ -267,7 +269,10 @@ func c0910(args []string) error {
 			emitLaw(o.tree, ct, real, c)
 		}
 	}
-	printJSON(obj{"objects": len(objs), "fact_checks": facts, "fact_mismatches": factMism, "relation_calls": evals, "relation_mismatches": mism, "law_events": laws, "events": ev.N})
+	selfLaw = true
+	wl, we := wildLaws(ev, emitLaw)
+	laws += wl
+	printJSON(obj{"wild_law_events": wl, "equivalence_events": we, "objects": len(objs), "fact_checks": facts, "fact_mismatches": factMism, "relation_calls": evals, "relation_mismatches": mism, "law_events": laws, "events": ev.N})
 	return nil
 }
 
@@ -302,4 +307,89 @@ func searchOK(hits, exp []int, stop, after int) bool {
 		want = len(exp)
 	}
 	return len(hits) == want
+}
+
+// wildLeaves: shapes outside the exact-safe leaf set of Gen_Obj (holes, lines along / across / inside a hole,
+// degenerate rectangles, collinear and bent lines, concave polygons). No L1 is used for them here: the laws of C09
+// relate the real answers of a pair to each other, and the transparency clauses relate the answers of two
+// representations of the same point set.
+func wildLeaves() []Tree {
+	sq := func(a, b int) [][]int { return [][]int{{a, a}, {b, a}, {b, b}, {a, b}, {a, a}} }
+	pt := func(x, y int) Tree { return Tree{Kind: "Point", P: []int{x, y}} }
+	ln := func(p ...[]int) Tree { return Tree{Kind: "LineString", Pts: p} }
+	rc := func(a, b, c, d int) Tree { return Tree{Kind: "Rect", Min: []int{a, b}, Max: []int{c, d}} }
+	holed := Tree{Kind: "Polygon", Rings: [][][]int{sq(0, 6), sq(1, 5)}}
+	twoHoles := Tree{Kind: "Polygon", Rings: [][][]int{sq(0, 6), {{1, 1}, {2, 1}, {2, 2}, {1, 1}}, {{3, 3}, {5, 3}, {5, 5}, {3, 5}, {3, 3}}}}
+	plug := Tree{Kind: "Polygon", Rings: [][][]int{sq(1, 5)}}
+	return []Tree{
+		holed, twoHoles, plug, {Kind: "Polygon", Rings: [][][]int{sq(2, 4)}}, {Kind: "Polygon", Rings: [][][]int{sq(0, 6)}},
+		{Kind: "Polygon", Rings: [][][]int{{{0, 0}, {6, 0}, {6, 1}, {1, 1}, {1, 6}, {0, 6}, {0, 0}}}}, // concave L along the hole
+		{Kind: "Polygon", Rings: [][][]int{{{0, 0}, {1, 1}, {0, 2}, {0, 0}}}},
+		ln([]int{1, 1}, []int{5, 1}), ln([]int{2, 1}, []int{4, 1}), ln([]int{2, 3}, []int{4, 3}), ln([]int{0, 3}, []int{6, 3}), ln([]int{0, 0}, []int{1, 1}),
+		ln([]int{0, 0}, []int{3, 0}, []int{6, 0}), ln([]int{0, 0}, []int{6, 0}, []int{6, 6}), ln([]int{1, 1}, []int{5, 1}, []int{5, 5}, []int{1, 5}, []int{1, 1}),
+		ln([]int{0, 1}, []int{1, 1}, []int{1, 0}), ln([]int{3, 0}, []int{3, 1}),
+		rc(2, 1, 4, 1), rc(1, 2, 1, 4), rc(3, 3, 3, 3), rc(1, 1, 1, 1), rc(1, 1, 5, 5), rc(0, 0, 6, 6), rc(2, 2, 4, 4), rc(0, 0, 6, 0), rc(0, 0, 1, 1),
+		pt(3, 1), pt(3, 3), pt(1, 1), pt(0, 0), pt(7, 7), {Kind: "SimplePoint", P: []int{5, 3}},
+		{Kind: "MultiPoint", Pts: [][]int{{3, 3}, {3, 1}}}, {Kind: "MultiPoint", Pts: [][]int{{0, 0}, {6, 6}}},
+		{Kind: "GeometryCollection", Kids: []Tree{holed, plug}}, {Kind: "Feature", Kids: []Tree{holed}},
+		{Kind: "MultiLineString", Rings: [][][]int{{{1, 1}, {5, 1}}, {{5, 1}, {5, 5}}}},
+		{Kind: "MultiPolygon", Polys: [][][][]int{{sq(0, 6), sq(1, 5)}, {sq(2, 4)}}},
+	}
+}
+
+// equivalents: other representations of the same point set (C09: Rect = five-point Polygon, SimplePoint = Point, Feature = its geometry)
+func equivalents(t Tree) []Tree {
+	var out []Tree
+	switch t.Kind {
+	case "Rect":
+		a, b, c, d := t.Min[0], t.Min[1], t.Max[0], t.Max[1]
+		out = append(out, Tree{Kind: "Polygon", Rings: [][][]int{{{a, b}, {c, b}, {c, d}, {a, d}, {a, b}}}})
+	case "Point":
+		out = append(out, Tree{Kind: "SimplePoint", P: t.P})
+	case "SimplePoint":
+		out = append(out, Tree{Kind: "Point", P: t.P})
+	}
+	// a Feature around a collection is the known finding KF-C09-feature-parts (judged against L1 / L2 in the relation rows)
+	if t.Kind != "Feature" && !strings.HasPrefix(t.Kind, "Multi") && !strings.HasSuffix(t.Kind, "Collection") {
+		out = append(out, Tree{Kind: "Feature", Kids: []Tree{t}})
+	}
+	return out
+}
+
+func wildLaws(ev *Events, emitLaw func(ta, tb Tree, a, b geojson.Object)) (laws, equivs int) {
+	leaves := wildLeaves()
+	objs := make([]geojson.Object, len(leaves))
+	for i, t := range leaves {
+		objs[i] = t.Build(Identity, nil)
+	}
+	answers := func(a, b geojson.Object) string {
+		s := ""
+		_, out := guarded(func() bool {
+			s = fmt.Sprint(a.Intersects(b), b.Intersects(a), a.Contains(b), b.Within(a), a.Within(b), b.Contains(a))
+			return true
+		})
+		if out != "ok" {
+			if i := strings.Index(out, "runaway"); i >= 0 {
+				return "runaway"
+			}
+			return out
+		}
+		return s
+	}
+	for i, ta := range leaves {
+		for j, tb := range leaves {
+			emitLaw(ta, tb, objs[i], objs[j])
+			laws++
+		}
+		for _, te := range equivalents(ta) {
+			oe := te.Build(Identity, nil)
+			for j, tb := range leaves {
+				r1, r2 := answers(objs[i], objs[j]), answers(oe, objs[j])
+				e := obj{"op": "equiv", "A": ta.JSON(), "A2": te.JSON(), "B": tb.JSON(), "r1": r1, "r2": r2, "out": "ok"}
+				ev.Emit(e)
+				equivs++
+			}
+		}
+	}
+	return
 }
